@@ -8,6 +8,8 @@ HasAccessibles.__init_subclass__ machinery), so that a violation case can carry 
              'levels': [level, ...]}               # classes along the MRO, base-most first; the last one is instantiated
     level = {'params':   [param, ...],
              'limits':   ['target_min', 'foo_limits', ...],       # Limit() parameters
+             'mixin_limits': ['foo_max', ...],   # Limit() parameters defined in a plain mixin class (not a HasAccessibles
+                                                 # subclass) that this level's class lists before its base
              'checks':   {'foo': {'op': 'gt'|'lt'|'eq', 'thr': <exported value>}},  # check_foo raising RangeError
              'commands': [command, ...]}
     param = {'name', 'spec' (catalogue type spec as JSON), 'mode': 'ro'|'ro_write'|'rw_write'|'rw_nowrite'|'const',
@@ -123,7 +125,7 @@ def reference(shape):
             rec['rfunc'] = bool(p.get('rfunc'))
             rec['foreign'] = False
             params[p['name']] = rec
-        for lname in level.get('limits', []):
+        for lname in level.get('limits', []) + level.get('mixin_limits', []):
             base = lname.rpartition('_')[0]
             params[lname] = {'name': lname, 'spec': limit_spec(params[base]['spec'], lname), 'mode': 'rw_nowrite',
                              'export': True, 'wire': wire_name(lname), 'checks': [], 'limit_of': base, 'rfunc': False,
@@ -332,6 +334,10 @@ def make_class(shape):
             res = T.build(T.fromjson(c['result'])) if c.get('result') else None
             ns[c['name']] = Command(arg, result=res, **kw)(_mk_command(c))
         cname = shape['name'] if i == nlev - 1 else f"{shape['name']}Base{i}"
+        if level.get('mixin_limits'):
+            mixin = type(f"{shape['name']}Mixin{i}", (), {'__module__': 'vf.genmods_node',
+                                                          **{ln: Limit() for ln in level['mixin_limits']}})
+            bases = (mixin,) + bases
         cls = type(cname, bases, ns)
         bases = (cls,)
     _cache[key] = cls
@@ -415,7 +421,7 @@ def shapes(tier):
             {'checks': {'target': {'op': 'eq', 'thr': 70}, 'k': {'op': 'gt', 'thr': 8.25}}},
             {'checks': {'k': {'op': 'lt', 'thr': 0.75}}},
         ]}
-    res = [ga, gb, gc, gx_shape(False)]
+    res = [ga, gb, gc, gx_shape(False), gi_shape(tier)]
     if tier == 'thorough':
         gd = {   # readable with parameters of further limit shapes
             'name': 'GD', 'base': 'Readable', 'features': [],
@@ -490,6 +496,32 @@ HIDDEN_SHAPE = {
     'levels': [{'params': [P('target', D010, 'rw_write', inherit=True), P('hp', I09, 'rw_write'),
                            P('hc', I09, 'rw_write', export='hcustom')],
                 'commands': [C('hcmd', I09), C('go')]}]}
+
+
+def gi_shape(tier):
+    """inheritance shapes of (parameter, dynamic limit, check hook): where along the class hierarchy each of the three is
+    defined.  A class never defines a hook and a limit for the same parameter itself (frappy documents that the hook
+    then replaces the automatic check); every other placement must enforce the limit and every hook.
+        b: ancestor has a hook, subclass adds the limit   d: ancestor has a hook, a mixin of the subclass adds the limit
+        e: hook in an intermediate class, limit added below it
+      thorough also:
+        a: limit added in a subclass (no hook)            c: limit defined by a plain mixin of a subclass (no hook)
+        f: parameter and limit in one class               g: limit in the ancestor, hook in the subclass
+        h: hook in the ancestor, limit in the subclass, a second hook below"""
+    small = ('int', 0, 6)
+    lv0 = {'params': [P(n, small, 'rw_write', dflt=2) for n in 'bde'], 'limits': [],
+           'checks': {'b': {'op': 'eq', 'thr': 5}, 'd': {'op': 'eq', 'thr': 1}}}
+    lv1 = {'limits': ['b_max'], 'mixin_limits': ['d_limits'], 'checks': {'e': {'op': 'eq', 'thr': 4}}}
+    lv2 = {'limits': ['e_min'], 'checks': {}}
+    if tier == 'thorough':
+        lv0['params'] += [P(n, small, 'rw_write', dflt=2) for n in 'acfgh']
+        lv0['limits'] += ['f_limits', 'g_min']
+        lv0['checks']['h'] = {'op': 'eq', 'thr': 5}
+        lv1['limits'] += ['a_max', 'h_max']
+        lv1['mixin_limits'] += ['c_min']
+        lv1['checks']['g'] = {'op': 'eq', 'thr': 4}
+        lv2['checks']['h'] = {'op': 'eq', 'thr': 1}
+    return {'name': 'GI', 'base': 'Module', 'features': [], 'levels': [lv0, lv1, lv2]}
 
 
 def gx_shape(writable):
